@@ -309,6 +309,8 @@ func (d *Decoder) decodeValue(v any) cadence.Value {
 			return d.decodeEvent(valueJSON)
 		case contractTypeStr:
 			return d.decodeContract(valueJSON)
+		case attachmentTypeStr:
+			return d.decodeAttachment(valueJSON)
 		case inclusiveRangeTypeStr:
 			return d.decodeInclusiveRange(valueJSON)
 		case pathTypeStr:
@@ -945,6 +947,31 @@ func (d *Decoder) decodeResource(valueJSON any) cadence.Resource {
 		d.gauge,
 		comp.location,
 		comp.qualifiedIdentifier,
+		comp.fieldTypes,
+		nil,
+	))
+}
+
+func (d *Decoder) decodeAttachment(valueJSON any) cadence.Attachment {
+	comp := d.decodeComposite(valueJSON)
+
+	attachment, err := cadence.NewMeteredAttachment(
+		d.gauge,
+		len(comp.fieldValues),
+		func() ([]cadence.Value, error) {
+			return comp.fieldValues, nil
+		},
+	)
+	if err != nil {
+		panic(errors.NewDefaultUserError("invalid attachment: %w", err))
+	}
+
+	return attachment.WithType(cadence.NewMeteredAttachmentType(
+		d.gauge,
+		comp.location,
+		comp.qualifiedIdentifier,
+		// NOTE: the base type is not encoded
+		nil,
 		comp.fieldTypes,
 		nil,
 	))
